@@ -5,6 +5,7 @@ package main
 import (
 	"context"
 	"fmt"
+	"strings"
 	"time"
 )
 
@@ -116,8 +117,9 @@ func (r *run) outerLock(t int, st Step) func() {
 		r.logTicks(grantAt)
 		r.wPending--
 		if free && r.c.GraceMs >= 15 && grantAt-callAt >= time.Duration(r.c.GraceMs)*time.Millisecond*3/4 {
-			r.viol = append(r.viol, violation{"outercancel-error-return-holds-reader", fmt.Sprintf("writer %d was granted only %v after its call (grace %dms) although no reader and no writer was outstanding: something a finished or failed acquisition left behind held it up", t, grantAt-callAt, r.c.GraceMs)})
-			r.abort.Store(true)
+			// informational only: under machine load plain scheduling delays reach this size; the
+			// registry-residue monitor (outerObserve) is the reliable detector of a ghost reader
+			r.hist["writer.slow-grant-with-nothing-outstanding"]++
 		}
 		th.ph, th.unlock = phHolding, fn
 		if !r.shutdown {
@@ -140,8 +142,10 @@ func (r *run) outerLock(t int, st Step) func() {
 					r.abort.Store(true)
 				}
 			}
-		} else {
-			r.occW[0].Add(1)
+		} else if w := r.occW[0].Add(1); w != 1 {
+			// after shutdown Lock goes through shutdownLock and ignores a writer granted before it
+			r.viol = append(r.viol, violation{"outer-two-writers-after-shutdown", fmt.Sprintf("writer %d granted after shutdown while %d writer(s) granted earlier still hold the lock", t, w-1)})
+			r.abort.Store(true)
 		}
 		r.mu.Unlock()
 		r.s.log("ret t=%d v=0", t)
@@ -228,6 +232,33 @@ func (r *run) outerObserve() {
 			time.Sleep(300 * time.Microsecond)
 		}
 	}
+	if r.shutdown {
+		// shutdown reclaims every registration (also one whose RLock reported errLockClosed): once the
+		// run loop has left, its deferred launch ends them all. Exempt: the loop is still inside
+		// handleHold (blocked behind a writer that holds the slot).
+		for try := 0; ; try++ {
+			reg := r.oc.VerifRegistered()
+			if reg == 0 {
+				break
+			}
+			stuck := false
+			for _, g := range snapshot() {
+				if strings.Contains(g.stack, "(*OuterCancel).handleHold") {
+					stuck = true
+				}
+			}
+			if stuck {
+				r.hist["shutdown.handler-still-in-handleHold"]++
+				break
+			}
+			if try >= 5 {
+				r.viol = append(r.viol, violation{"outer-shutdown-leaves-registration", fmt.Sprintf("%d reader registration(s) left after shutdown although the run loop has returned", reg)})
+				r.abort.Store(true)
+				break
+			}
+			time.Sleep(500 * time.Microsecond)
+		}
+	}
 	el := r.elapsed()
 	r.logTicks(el)
 	// every caller is idle or blocked and every internal goroutine is blocked (settle): no model
@@ -308,6 +339,18 @@ func outerForced(thorough bool) []*Case {
 				add("cancel-racing-grant", 3, g+15, lk(0, 0, "w", false), lk(1, 0, "r", false),
 					Step{Do: "race", T: 1, K: 0, Us: us + rep}, ul(1, false, false), lk(2, 0, "w", false), ul(2, false, false))
 			}
+		}
+		// late release: R1 is cancelled at the grace timeout by W, W unlocks, R2 is admitted, only then
+		// R1 calls its release function; the next writer must still wait for R2
+		add("late-release", 4, g, lk(1, 0, "r", false), lk(0, 0, "w", false), sl(g+2), ul(0, false, false),
+			lk(2, 0, "r", false), ul(1, false, false), lk(3, 0, "w", false), sl(g+2), ul(3, false, false), ul(2, false, false))
+		// a writer granted before shutdown and a writer arriving after it
+		add("writers-across-shutdown", 2, g, lk(0, 0, "w", false), Step{Do: "close"}, sl(1), lk(1, 0, "w", false),
+			ul(1, false, false), ul(0, false, false))
+		// shutdown while a reader waits behind a writer: its admission races errLockClosed
+		for rep := 0; rep < 4; rep++ {
+			add("shutdown-racing-admission", 3, g, lk(0, 0, "w", false), lk(1, 0, "r", false), Step{Do: "close"}, sl(1),
+				ul(0, false, false), sl(1), ul(1, false, false))
 		}
 		// shutdown while a writer waits for the grace period
 		add("shutdown-during-grace", 3, g, lk(0, 0, "r", false), lk(1, 0, "w", false), Step{Do: "close"}, sl(1),
